@@ -25,7 +25,7 @@
    restart yields after the process has gone on behind a failed fsync or a failed rollover behind a completed append (a
    complete record that is on disk but not in the index), and after a merge pass that failed half-way. *)
 From BC Require Import Store.Engine Store.Log Store.Cons Store.Inv Store.Refine Store.Merge Store.Theorems
-  Store.Codec Store.CodecProofs Store.Crash Store.CrashScript Store.CrashMerge Store.FaultUnlink Store.FaultFsync Store.FaultMerge Store.FaultContinue Store.FaultBytes.
+  Store.Codec Store.CodecProofs Store.Crash Store.CrashScript Store.CrashMerge Store.FaultUnlink Store.FaultFsync Store.MergeFail Store.FaultMerge Store.FaultContinue Store.FaultBytes.
 From Coq Require Import Lia.
 Open Scope N_scope.
 
